@@ -214,6 +214,8 @@ func parseSubstvar(input *input, relation *Relation) error {
 			default:
 				return fmt.Errorf("Trailing garbage after a substvar: %c", peek)
 			}
+		case '$', '{': /* most likely the '}' of this substvar went missing */
+			return fmt.Errorf("Unexpected %c inside a substvar name", peek)
 		}
 		ret.Name += string([]byte{input.Next()})
 	}
@@ -342,6 +344,13 @@ func parsePossibilityOperator(input *input, version *VersionRelation) error {
 /* */
 func parsePossibilityNumber(input *input, version *VersionRelation) error {
 	eatWhitespace(input)
+	switch peek := input.Peek(); peek {
+	case '<', '=', '>': /* e.g. "==", ">==" or ">>=": not an Operator */
+		return fmt.Errorf(
+			"Unknown Operator in Possibility Version modifier: %s%c",
+			version.Operator, peek,
+		)
+	}
 	for {
 		peek := input.Peek()
 		switch peek {
@@ -349,6 +358,8 @@ func parsePossibilityNumber(input *input, version *VersionRelation) error {
 			return errors.New("Oh no. Reached EOF before Number finished")
 		case ')':
 			return nil
+		case '(':
+			return errors.New("Unexpected ( inside a Version Number")
 		case ' ', '\t', '\r', '\n':
 			/* Only the closing paren (or EOF, handled above) may follow */
 			eatWhitespace(input)
@@ -409,6 +420,8 @@ func parsePossibilityArch(input *input, possi *Possibility) error {
 			return errors.New("Oh no. Reached EOF before Arch list finished")
 		case '!':
 			return errors.New("You can only negate whole blocks :(")
+		case '[':
+			return errors.New("Unexpected [ inside an Arch list")
 		case ']', ' ', '\t', '\r', '\n': /* Let our parent deal with these */
 			archObj, err := ParseArch(arch)
 			if err != nil {
@@ -468,6 +481,8 @@ func parsePossibilityStage(input *input, stageSet *StageSet) error {
 			}
 			stage.Not = !stage.Not
 			continue /* the byte after the '!' is looked at like any other */
+		case '<':
+			return errors.New("Unexpected < inside a StageSet")
 		case '>', ' ', '\t', '\r', '\n': /* Let our parent deal with these */
 			stageSet.Stages = append(stageSet.Stages, stage)
 			return nil
